@@ -243,6 +243,100 @@ def h_level_geoboxes(nlevels):
         prove(f"level{k}_pixel_doubles_origin_fixed", And(ex(wl[0]) == ex(wo[0]), ex(wl[1]) == ex(wo[1])))
 
 
+# ---- L9: the real header builder on symbolic image shapes -------------------------------------------------
+class _TW:
+    """tifffile.TiffWriter stand-in: records the page descriptions it is asked to write"""
+
+    pages: list = []
+
+    def __init__(self, buf, **kw):
+        _TW.pages = []
+
+    def write(self, data, *, shape, tile, **kw):
+        _TW.pages.append(dict(shape=shape, tile=tile, kw=kw))
+
+    def close(self):
+        pass
+
+
+def setup_tifffile():
+    setup()
+    if symx.concrete_mode():
+        return
+    import odc.geo.cog._tifffile as tf
+
+    shims.instrument(tf)
+
+
+def h_make_empty_cog(ax, block):
+    """_make_empty_cog itself (TiffWriter recorded, GeoTIFF tag rendering stubbed) for every image
+    shape incl. single-row / single-column images and images smaller than a tile: it returns, the
+    padded shape follows the layout rule, every overview is exactly half of the previous level,
+    and the per-level GeoBoxes keep the origin and double the pixel"""
+    import sys
+    import types
+
+    import odc.geo.cog._tifffile as tf
+    import odc.geo.geobox as gbx
+    from affine import Affine
+
+    sh = shm()
+    ny, nx = Int("ny", 1, 200), Int("nx", 1, 200)
+    ns = 3
+    shape = {"YX": (ny, nx), "YXS": (ny, nx, ns), "SYX": (2, ny, nx)}[ax]
+    if ax == "SYX":
+        assume(Not(And(ny == 2, nx == 2)))  # (2,2,2) with a 2x2 GeoBox reads either way
+    g = gbx.GeoBox((ny, nx), Affine(rconst(10), 0.0, Real("c"), 0.0, rconst(-10), Real("f")), "epsg:3857")
+    conc = symx.concrete_mode()
+    seen_gbox = []
+    if not conc:
+        import tifffile as real_tifffile
+
+        stub = types.ModuleType("tifffile")
+        stub.__dict__.update({k: v for k, v in real_tifffile.__dict__.items() if not k.startswith("__") or k in ("__spec__", "__file__", "__path__", "__version__")})
+        stub.TiffWriter = _TW
+        saved_mod, saved_meta = sys.modules["tifffile"], tf.geotiff_metadata
+        sys.modules["tifffile"] = stub
+
+        def fake_meta(gbox, nodata=None, gdal_metadata=None):
+            seen_gbox.append(gbox)
+            return [], {}
+
+        tf.geotiff_metadata = fake_meta
+    try:
+        meta, _ = tf._make_empty_cog(shape, "uint8", g, blocksize=block)
+    finally:
+        if not conc:
+            sys.modules["tifffile"], tf.geotiff_metadata = saved_mod, saved_meta
+    want_shape, want_tile, n = sh.compute_cog_spec((ny, nx), sh.norm_blocksize(block))
+    levels = meta.flatten()
+    prove("one_level_per_overview", len(levels) == n + 1)
+    prove("padded_shape_from_layout_rule", And(meta.shape.x == want_shape.x, meta.shape.y == want_shape.y))
+    p = 2 ** int(n)
+    prove("padding", And(meta.shape.x % p == 0, meta.shape.x >= nx, meta.shape.x - nx < p, meta.shape.y % p == 0, meta.shape.y >= ny, meta.shape.y - ny < p))
+    i, j = Real("i"), Real("j")
+    for k, m in enumerate(levels):
+        s_ = 2**k
+        prove(f"level{k}_exactly_half", And(m.shape.x * s_ == meta.shape.x, m.shape.y * s_ == meta.shape.y, m.shape.x >= 1, m.shape.y >= 1))
+        prove(f"level{k}_tile_multiple_of_16", And(m.tile.x % 16 == 0, m.tile.y % 16 == 0, m.tile.x >= 16, m.tile.y >= 16))
+        prove(f"level{k}_layout", And(m.axis == ax, m.nsamples == {"YX": 1, "YXS": ns, "SYX": 2}[ax]))
+        prove(f"level{k}_gbox_shape", And(m.gbox.shape.x == m.shape.x, m.gbox.shape.y == m.shape.y))
+        wl, wo = m.gbox.pix2wld(i, j), g.pix2wld(i * s_, j * s_)
+        if conc:
+            prove(f"level{k}_gbox_maps", And(abs(ex(wl[0]) - ex(wo[0])) <= F(1, 10**6) * (1 + abs(ex(wo[0]))), abs(ex(wl[1]) - ex(wo[1])) <= F(1, 10**6) * (1 + abs(ex(wo[1])))))
+        else:
+            prove(f"level{k}_gbox_maps", And(ex(wl[0]) == ex(wo[0]), ex(wl[1]) == ex(wo[1])))
+    if conc:
+        return
+    prove("one_page_per_level", len(_TW.pages) == len(levels))
+    for k, (pg, m) in enumerate(zip(_TW.pages, levels)):
+        want = {"YX": (m.shape.y, m.shape.x), "YXS": (m.shape.y, m.shape.x, ns), "SYX": (2, m.shape.y, m.shape.x)}[ax]
+        prove(f"page{k}_shape", And(len(pg["shape"]) == len(want), *[a == b for a, b in zip(pg["shape"], want)]))
+        prove(f"page{k}_tile", And(pg["tile"][0] == m.tile.y, pg["tile"][1] == m.tile.x))
+        prove(f"page{k}_kind", ("extratags" in pg["kw"]) == (k == 0) and ("subfiletype" in pg["kw"]) == (k > 0))
+    prove("geotags_from_padded_geobox", len(seen_gbox) == 1 and bool(And(seen_gbox[0].shape.x == meta.shape.x, seen_gbox[0].shape.y == meta.shape.y)))
+
+
 def h_cog_gbox_tile():
     import odc.geo.geobox as gbx
     from affine import Affine
@@ -262,27 +356,30 @@ def h_yaxis(case):
     from affine import Affine
 
     sh = shm()
-    ny, nx = Int("ny", 5), Int("nx", 5)
+    ny, nx = Int("ny", 1), Int("nx", 1)  # any image size, images 3 or 4 pixels wide included
     g = gbx.GeoBox((ny, nx), Affine(rconst(10), 0.0, Real("c"), 0.0, rconst(-10), Real("f")), None)
     if case == "2d":
         prove("YX", sh.yaxis_from_shape((ny, nx)) == ("YX", 0))
     elif case == "rgb":
         ns = Int("ns", 3, 4)
         prove("YXS_for_3_or_4_trailing_samples", sh.yaxis_from_shape((ny, nx, ns)) == ("YXS", 0))
+        prove("YXS_for_3_or_4_trailing_samples_with_geobox", sh.yaxis_from_shape((ny, nx, ns), g) == ("YXS", 0))
     elif case == "syx_nogbox":
-        ns = Int("ns", 5)
+        ns = Int("ns", 1)
+        assume(And(nx != 3, nx != 4))  # without a GeoBox a trailing 3/4 reads as RGB(A) by convention
         prove("SYX_without_geobox", sh.yaxis_from_shape((ns, ny, nx)) == ("SYX", 1))
     elif case == "yxs_gbox":
-        ns = Int("ns", 5)
+        ns = Int("ns", 1)
         prove("YXS_when_leading_dims_match_geobox", sh.yaxis_from_shape((ny, nx, ns), g) == ("YXS", 0))
     elif case == "syx_gbox":
-        ns = Int("ns", 5)
-        assume(Or(ns != ny, ny != nx))  # otherwise both readings are possible
+        ns = Int("ns", 1)
+        assume(Or(ns != ny, ny != nx))  # otherwise both readings match the GeoBox
         r = sh.yaxis_from_shape((ns, ny, nx), g)
-        prove("SYX_when_trailing_dims_match_geobox", r == ("SYX", 1) or (r == ("YXS", 0) and bool(And(ns == ny, ny == nx, False))))
+        prove("SYX_when_only_trailing_dims_match_geobox", r == ("SYX", 1))
     elif case == "bad":
         ns = Int("ns", 5)
         m1, m2 = Int("m1", 5), Int("m2", 5)
+        assume(And(ny >= 5, nx >= 5))
         assume(And(Or(m1 != ny, m2 != nx), Or(ns != ny, m1 != nx)))
         try:
             sh.yaxis_from_shape((ns, m1, m2), g)
@@ -321,5 +418,9 @@ OBLIGATIONS = [
     Ob("L6_level_geoboxes", h_level_geoboxes, tiered([dict(nlevels=n) for n in (1, 2)], [dict(nlevels=n) for n in (1, 2, 3, 5)]),
        descr="cog_gbox(nlevels): padded right/bottom only; each level exactly half the previous, pixel size doubles with the origin fixed",
        functions=("odc.geo.cog._shared.cog_gbox", "odc.geo.geobox.GeoBox.expand", "odc.geo.types.Shape2d.shrink2", "odc.geo.geobox.GeoBox.zoom_to"), bounds="fully symbolic affine and shape; level count from grid", setup=setup, timeout_ms=20000),
+    Ob("L9_make_empty_cog", h_make_empty_cog, tiered([dict(ax="YX", block=16), dict(ax="SYX", block=32), dict(ax="YXS", block=16)], [dict(ax=a, block=b) for a in ("YX", "YXS", "SYX") for b in (16, 32, 64)]),
+       descr="_make_empty_cog on every image shape (single-row/column and narrower-than-a-tile included): returns; padded shape per layout rule; overviews exactly half; per-level GeoBoxes; one page per level with the level's shape and tile",
+       functions=("odc.geo.cog._tifffile._make_empty_cog", "odc.geo.cog._shared.compute_cog_spec", "odc.geo.types.Shape2d.shrink2", "odc.geo.geobox.GeoBox.zoom_to", "odc.geo.geobox.GeoBox.expand"),
+       bounds="image sides 1..200, block from grid (16/32/64), layouts YX / YXS(3) / SYX(2)", stubs=("tifffile.TiffWriter recorder", "geotiff_metadata (rasterio round trip) recorder"), setup=setup_tifffile, timeout_ms=20000),
     Ob("L6_cog_gbox_tile", h_cog_gbox_tile, fixed(), descr="cog_gbox(tile=): shape from the layout rule, grid unchanged", functions=("odc.geo.cog._shared.cog_gbox",), setup=setup, timeout_ms=20000),
 ]
